@@ -15,6 +15,7 @@
 From Coq Require Import List Arith Bool ZArith NArith.
 From RxVerif Require Import Framing.Line Container.Parquet Container.JsonLines Container.JsonLinesProofs.
 From RxVerif Require Import Container.Json Container.JsonProofs Container.JsonC19.
+From RxVerif Require Import Container.FloatText Container.JsonFloat Container.JsonFloatProofs Container.JsonFloatC19.
 Import ListNotations.
 
 Theorem C19_load_any_rechunking_of_dump_partial :
@@ -186,8 +187,8 @@ Print Assumptions C19_no_compression_whole_ok.
    library on every run (C19Corr.CJsonModel: the text rxsci json.dump emitted for each generated value = json_print;
    json_parse = orjson.loads on noisy and mutated texts, rejections included).  The orjson premises of the
    theorems above are THEOREMS for this model, so that only the text codec (C17) and the compression stage (C16)
-   remain as premises.  Outside the model: floats, ints beyond orjson's range (loads turns them into floats), orjson's
-   nesting limits (254 on dumps, 1024 on loads).
+   remain as premises.  Outside this first model: floats (added by the second model below), ints beyond orjson's range
+   (loads turns them into floats; covered by the second model), orjson's nesting limits (254 on dumps, 1024 on loads).
    --------------------------------------------------------------------------------------------- *)
 Theorem C19_json_model_parse_print : forall v, jv_wf v -> json_parse (json_print v) = Some v.
 Proof. exact json_parse_print. Qed.
@@ -251,6 +252,86 @@ Theorem C19_model_load_doc_from_file_dump_one :
     (dump_to_file wfjv Z Byte 10%Z wf_dumps encode compress [o]) = ([o], true).
 Proof. exact JsonC19.C19_model_load_doc_from_file_dump_one. Qed.
 Print Assumptions C19_model_load_doc_from_file_dump_one.
+(* ---------------------------------------------------------------------------------------------
+   The same with finite binary64 floats (Container/JsonFloat.v over FloatText.v): the printer is what orjson.dumps emits
+   for a float (shortest round-trip digits; fixed notation while -5 < number of digits + decimal exponent <= 16, else
+   D[.IGITS]e+-EXP), the parser reads JSON number syntax and rounds to nearest-even (an overflow to infinity is a
+   rejection, as in orjson).  Equality is structural: -0.0 comes back as -0.0.  nan / inf are not values of the model
+   (orjson writes null for them; the harness never feeds them).  Compared with the real library on every run
+   (C19Corr.CJsonFloat).
+   --------------------------------------------------------------------------------------------- *)
+Theorem C19_json_float_model_parse_print : forall v, jvf_wf v -> jsonf_parse (jsonf_print v) = Some v.
+Proof. exact jsonf_parse_print. Qed.
+Print Assumptions C19_json_float_model_parse_print.
+Theorem C19_json_float_model_parse_print_then_whitespace : forall v ws, jvf_wf v -> all_ws ws ->
+  jsonf_parse (jsonf_print v ++ ws) = Some v.
+Proof. exact jsonf_parse_print_ws. Qed.
+Print Assumptions C19_json_float_model_parse_print_then_whitespace.
+Theorem C19_json_float_model_number : forall x r, fl_ok x -> num_stop r ->
+  parse_number_f (float_text x ++ r) = Some (FFloat x, r).
+Proof. exact parse_number_f_float. Qed.
+Print Assumptions C19_json_float_model_number.
+Theorem C19_json_float_model_no_control_byte : forall v, Forall (fun b => (32 <= b)%Z) (jsonf_print v).
+Proof. exact jsonf_print_no_control. Qed.
+Print Assumptions C19_json_float_model_no_control_byte.
+Theorem C19_json_float_model_no_raw_newline : forall v, ~ In 10%Z (jsonf_print v).
+Proof. exact jsonf_print_no_newline. Qed.
+Print Assumptions C19_json_float_model_no_raw_newline.
+Theorem C19_json_float_model_nonempty : forall v, jsonf_print v <> [].
+Proof. exact jsonf_print_nonempty. Qed.
+Print Assumptions C19_json_float_model_nonempty.
+Theorem C19_json_float_model_is_utf8 : forall v, jvf_wf v -> utf8_decode (jsonf_print v) = Some (jsonf_text v).
+Proof. exact jsonf_print_utf8. Qed.
+Print Assumptions C19_json_float_model_is_utf8.
+(* the composition theorems once more, Obj = well-formed values that may hold floats *)
+Theorem C19_modelf_load_any_rechunking_of_dump :
+  forall (Byte : Type)
+         (encode : list (list Z) -> list (list Byte)) (decode : list (list Byte) -> option (list (list Z)))
+         (compress : list (list Byte) -> list (list Byte))
+         (decompress : list (list Byte) -> option (list (list Byte))),
+  (* H_text_codec *) (forall cs r, concat r = concat (encode cs) ->
+                      exists cs', decode r = Some cs' /\ concat cs' = concat cs) ->
+  (* H_compression *) (forall bs r, concat r = concat (compress bs) ->
+                       exists bs', decompress r = Some bs' /\ concat bs' = concat bs) ->
+  forall (objs : list wfjvf) (r : list (list Byte)) (skip : nat) (ign : bool),
+  concat r = dump_to_file wfjvf Z Byte 10%Z wff_dumps encode compress objs ->
+  load_chunks wfjvf Z Byte zf_is_nl wff_loads wff_is_null decode decompress skip ign r =
+  (filter (fun o => negb (wff_is_null o)) (skipn skip objs), true).
+Proof. exact JsonFloatC19.C19_modelf_load_any_rechunking_of_dump. Qed.
+Print Assumptions C19_modelf_load_any_rechunking_of_dump.
+Theorem C19_modelf_load_from_file_dump_to_file :
+  forall (Byte : Type)
+         (encode : list (list Z) -> list (list Byte)) (decode : list (list Byte) -> option (list (list Z)))
+         (compress : list (list Byte) -> list (list Byte))
+         (decompress : list (list Byte) -> option (list (list Byte))),
+  (forall cs r, concat r = concat (encode cs) -> exists cs', decode r = Some cs' /\ concat cs' = concat cs) ->
+  (forall bs r, concat r = concat (compress bs) -> exists bs', decompress r = Some bs' /\ concat bs' = concat bs) ->
+  forall (objs : list wfjvf) (size : nat) (ign : bool),
+  (forall o, In o objs -> wff_is_null o = false) ->
+  load_from_file wfjvf Z Byte zf_is_nl wff_loads wff_is_null decode decompress size 0 ign
+    (dump_to_file wfjvf Z Byte 10%Z wff_dumps encode compress objs) = (objs, true).
+Proof. exact JsonFloatC19.C19_modelf_load_from_file_dump_to_file. Qed.
+Print Assumptions C19_modelf_load_from_file_dump_to_file.
+Theorem C19_modelf_load_doc_from_file_dump_one :
+  forall (Byte : Type)
+         (encode : list (list Z) -> list (list Byte)) (decode : list (list Byte) -> option (list (list Z)))
+         (compress : list (list Byte) -> list (list Byte))
+         (decompress : list (list Byte) -> option (list (list Byte))),
+  (forall cs r, drop_empty r = drop_empty [concat (encode cs)] ->
+   exists cs', decode r = Some cs' /\ drop_empty cs' = drop_empty [concat cs]) ->
+  (forall bs r, drop_empty r = drop_empty [concat (compress bs)] ->
+   exists bs', decompress r = Some bs' /\ drop_empty bs' = drop_empty [concat bs]) ->
+  forall (o : wfjvf) (ign : bool), wff_is_null o = false ->
+  load_doc_from_file wfjvf Z Byte wff_loads wff_is_null decode decompress 0 ign
+    (dump_to_file wfjvf Z Byte 10%Z wff_dumps encode compress [o]) = ([o], true).
+Proof. exact JsonFloatC19.C19_modelf_load_doc_from_file_dump_one. Qed.
+Print Assumptions C19_modelf_load_doc_from_file_dump_one.
+Example C19_json_float_model_example :
+  jsonf_print (FArr [ffloat (false, 6755399441055744, -42)%Z; ffloat (true, 0, 0)%Z; ffloat (false, 5629499534213120, 1)%Z;
+                     ffloat (false, 1, -1074)%Z; FInt 7%Z])
+  = [91; 49; 53; 51; 54; 46; 48; 44; 45; 48; 46; 48; 44; 49; 46; 49; 50; 53; 56; 57; 57; 57; 48; 54; 56; 52; 50; 54; 50; 52; 101; 43; 49; 54;
+     44; 53; 101; 45; 51; 50; 52; 44; 55; 93]%Z.
+Proof. vm_compute. reflexivity. Qed.
 Example C19_json_model_example :
   json_print (JObj [([97]%Z, JArr [JInt 1%Z; JNull; JStr [233; 10; 34]%Z])])
   = [123; 34; 97; 34; 58; 91; 49; 44; 110; 117; 108; 108; 44; 34; 195; 169; 92; 110; 92; 34; 34; 93; 125]%Z.
